@@ -84,7 +84,17 @@ def run_shard(spec, acc):
     defs = [d for d in all_defs if d.pgn in mine]
     plain = NMEA2000Decoder()
     maps = pref_maps(rng)
-    long_lived = [NMEA2000Decoder(preferred_units=lib_map) for lib_map, _ in maps]
+    # the decoder works with the preferences it was GIVEN: the application's dictionary is changed right after construction
+    # (cleared, then filled with something else) and must not matter any more
+    long_lived = []
+    for lib_map, _ in maps:
+        given = dict(lib_map)
+        long_lived.append(NMEA2000Decoder(preferred_units=given))
+        given.clear()
+        given[PhysicalQuantities.SPEED] = "kts"
+        given[PhysicalQuantities.TEMPERATURE] = "f"
+        given[PhysicalQuantities.ANGLE] = "deg"
+        given[PhysicalQuantities.PRESSURE] = "psi"
     order = []
     for rnd in range(2 if quick else 20):
         shuffled = list(defs)
